@@ -31,6 +31,7 @@ void put(Vec& dg, const SU_vector& v) { for (unsigned i = 0; i < v.Size(); i++) 
 
 struct Digest { Vec exact, approx; };
 
+void private_solver(uint64_t seed, unsigned d, Vec& out);
 // (a) a seeded program of vector algebra on private vectors
 Digest algebra_program(uint64_t seed, int nops) {
   vh::Rng r(seed, 18, 1);
@@ -42,7 +43,7 @@ Digest algebra_program(uint64_t seed, int nops) {
   for (unsigned j = 1; j < 6; j++) for (unsigned i = 0; i < j; i++) { k.SetMixingAngle(i, j, r.uni(-1, 1)); k.SetPhase(i, j, r.uni(-1, 1)); }
   for (int op = 0; op < nops; op++) {
     int a = r.pick(4), b = r.pick(4), t = r.pick(4);
-    switch (r.pick(14)) {
+    switch (r.pick(15)) {
       case 0: pool[t] = pool[a] + pool[b]; break;
       case 1: pool[t] = squids::iCommutator(pool[a], pool[b]); break;
       case 2: pool[t] = squids::ACommutator(pool[a], pool[b]) * 0.25; break;
@@ -64,6 +65,7 @@ Digest algebra_program(uint64_t seed, int nops) {
       case 10: { auto U = k.GetTransformationMatrix(d); pool[t] = r.coin() ? pool[a].UTransform(U.get()) : (r.coin() ? pool[a].UDaggerTransform(U.get()) : pool[a].Rotate(U.get())); } break;
       case 11: pool[t] = std::move(pool[a]) - pool[b]; pool[a] = SU_vector(rand_vec(r, d)); break;
       case 12: { size_t n = pool[a].GetEvolveBufferSize(); std::unique_ptr<double[]> buf(new double[n]); SU_vector h(d); for (unsigned l = 1; l < d; l++) h[d * l + l] = r.normal(); h.PrepareEvolve(buf.get(), r.normal()); pool[t] = pool[b].Evolve(buf.get()); } break;
+      case 13: private_solver(r.next(), d, dg.exact); break;   // a solver object owned by this thread: construct, evolve, query, destroy
       default: pool[t] *= 0.5; pool[t] += pool[a].Real() - pool[b].Imag();
     }
     // keep magnitudes bounded
@@ -88,6 +90,14 @@ struct Shared : public squids::SQuIDS {
   SU_vector H0(double x, unsigned ir) const override { SU_vector h(nsun); for (unsigned l = 1; l < nsun; l++) h[nsun * l + l] = 0.3 * l * x + 0.1 * ir; return h; }
   SU_vector HI(unsigned ix, unsigned, double t) const override { SU_vector h(nsun); h[1] = 0.2 + 0.05 * ix + 0.01 * t; return h; }
 };
+void private_solver(uint64_t seed, unsigned d, Vec& out) {
+  Shared p(2 + (unsigned)(seed % 3), d, 1, seed);   // the constructor evolves it with and without numerics
+  vh::Rng r(seed, 18, 7);
+  SU_vector O(rand_vec(r, d));
+  out.push_back(p.GetExpectationValue(O, 0, 0));
+  out.push_back(p.GetExpectationValueD(O, 0, r.uni(0.5, 4.0)));
+  out.push_back(p.Get_t());
+}
 Vec query_program(const Shared& s1, const Shared& s2, uint64_t seed, int nq) {
   vh::Rng r(seed, 18, 4);
   Vec out;
